@@ -25,6 +25,29 @@ def case(d):
         p = family.member_of(d, violating=0.0, ftype="c", opts={"force": ("global",), "small": True})   # Notice-only files
     else:
         p = family.member_of(d, violating=0.7, opts={"small": True})
+    if d.bool(0.25):
+        # characters that some text APIs take for line boundaries: the stored file and the inline content must still agree
+        ch = d.choice(["\f", "\v", "\x1c", "\x1d", "\x1e", "\x85", "\u2028", "\u2029", "\r", "\r\n"])
+        lines = p.text.split("\n")
+        at = d.int(12, max(12, len(lines) - 2))
+        where = d.choice(["own-line", "in-comment", "end-of-line"])
+        if ch == "\r\n":
+            text = "\r\n".join(lines)
+        elif where == "own-line":
+            lines.insert(at, ch)
+            text = "\n".join(lines)
+        elif where == "in-comment":
+            lines.insert(at, "/* a" + ch + "b */")
+            text = "\n".join(lines)
+        else:
+            lines[at] = lines[at] + ch
+            text = "\n".join(lines)
+
+        class Q:
+            pass
+        q = Q()
+        q.name, q.text, q.variant, q.lines = p.name, text, ("exotic", repr(ch), where), []
+        p = q
     sets = []
     for _ in range(d.int(3, 6)):
         o = {"colors": d.bool(0.5), "fmt": d.choice([None, "humanized", "json"]), "o": d.bool(0.3), "debug": d.weighted([(4, 0), (2, 1), (1, 2)]),
@@ -81,7 +104,7 @@ def check(camp, p, sets, cli=adapters.forked_cli):
             camp.case(text, False)
             camp.count("not-analysed-to-a-verdict")
             return
-        define_lines = {i + 1 for i, ln in enumerate(p.lines) if ln.kind == "define"}
+        define_lines = {i + 1 for i, ln in enumerate(p.lines) if ln.kind == "define"} if p.lines else {i + 1 for i, l in enumerate(text.split("\n")) if l.lstrip("# ").startswith("define")}
         for o in sets:
             res = cli(argv_of(o, name, text), dname)
             ndiff = sum([o["colors"], o["fmt"] is not None, o["o"], o["debug"] > 0, o["R"] is not None, o["inline"]])
@@ -117,7 +140,7 @@ def judge(camp, b, got, o, define_lines, case_d):
         return
     if got != b:
         what = "verdict" if got[0] != b[0] else "diagnostics"
-        opt = "inline" if o["inline"] else "json" if o["fmt"] == "json" else "debug" if o["debug"] else "R" if o["R"] else "o" if o["o"] else "colors"
+        opt = ("inline" + ("|" + case_d["variant"][1] if case_d.get("variant") and case_d["variant"][0] == "exotic" else "")) if o["inline"] else "json" if o["fmt"] == "json" else "debug" if o["debug"] else "R" if o["R"] else "o" if o["o"] else "colors"
         camp.fail("C16|%s|%s" % (what, opt), "options %s: %s, baseline %s; only-baseline %s only-here %s" % (
             {k: v for k, v in o.items() if v}, got[0], b[0], sorted(b[1] - got[1])[:3], sorted(got[1] - b[1])[:3]), case_d)
 
